@@ -320,6 +320,31 @@ Proof.
       split; [exact J1|split].
       * simpl. lia.
       * simpl. rewrite E2, Nat.sub_diag; simpl. rewrite app_nil_r. rewrite <- E1. exact J3.
+  - (* newreg *)
+    destruct (Nat.ltb_spec n (length (nodes s))); [|simpl; auto].
+    unfold op_newreg. destruct (Nat.leb _ _); [simpl; auto|]. cbn [fst].
+    assert (H0 : hkeeps (fun s0 => set_node s0 n (mkNode (virt (nth_node s0 n)) (sims (nth_node s0 n))
+               (regs (nth_node s0 n) ++ [mkReg (nextReg (nth_node s0 n)) maxq 0 [] []]) (S (numRegs (nth_node s0 n)))
+               (S (nextReg (nth_node s0 n))) (maxQ (nth_node s0 n)) (maxR (nth_node s0 n))))).
+    { intros s0. split; [apply hids_set_same|]; reflexivity. }
+    apply (HK _ H0).
+  - (* newinreg *)
+    destruct (Nat.ltb_spec n (length (nodes s))); [|simpl; auto].
+    unfold op_new_inreg. destruct (negb _); [simpl; auto|].
+    destruct (Nat.leb _ _); [simpl; auto|].
+    destruct (find_reg _ _) as [r|]; [|simpl; auto].
+    destruct (Nat.leb _ _); [simpl; auto|]. cbn [fst].
+    match goal with |- hid_inv (mkNet (upd _ _ ?nd) _) /\ _ => set (nd4 := nd) end.
+    set (q := mkVq (next_hid s) _ n _ _) in *.
+    assert (Hv : virt nd4 = virt (nth_node s n) ++ [q]) by reflexivity.
+    split; [|split].
+    + apply hid_inv_add with (q := q); auto.
+    + simpl; lia.
+    + match goal with |- context [?a - next_hid s] => replace (a - next_hid s) with 1 by (unfold set_node; cbn [next_hid]; lia) end. cbn [seq].
+      pose proof (hids_add s n nd4 q H Hv) as P. unfold set_node in P.
+      intros z Hz.
+      assert (Hz' : In z (hids (mkNet (upd (nodes s) n nd4) (next_hid s)))) by exact Hz.
+      eapply Permutation_in in Hz'; [|exact P]. rewrite in_app_iff. apply in_inv in Hz'. destruct Hz' as [E|E]; [right; simpl; left; exact E|left; exact E].
 Qed.
 
 (* after a successful send / destructive measurement the handle is stale *)
